@@ -184,7 +184,29 @@ func TestC11Proofs(t *testing.T) {
 		h := hist[hi]
 		historical := hi != len(hist)-1
 		if len(h.root) == 0 {
-			rec.Case("empty-root", "", false, nil)
+			// the empty trie (every key deleted again; a contract without storage): the absence of any key must be
+			// provable, in both encodings, and nothing can be proved present
+			empty := NewTrie(nil, common.Hasher, store)
+			for _, q := range universe {
+				ap, incl, pk, pv, err := empty.MerkleProof(q)
+				if err != nil || incl {
+					t.Fatalf("proof for key %x in the empty trie: included=%v err=%v", q, incl, err)
+				}
+				if acc, p := c11Accepts(nil, c11claim{kind: "nonincl", key: q, value: pv, proofKey: pk, ap: ap}); p != nil || !acc {
+					t.Fatalf("the honest proof of absence of key %x in the EMPTY trie (%d audit nodes) is rejected by the repository verifier (panic=%v)", q, len(ap), p)
+				}
+				bitmap, apc, length, incl, pk, pv, err := empty.MerkleProofCompressed(q)
+				if err != nil || incl {
+					t.Fatalf("compressed proof for key %x in the empty trie: included=%v err=%v", q, incl, err)
+				}
+				if acc, p := c11Accepts(nil, c11claim{kind: "nonincl", key: q, value: pv, proofKey: pk, ap: apc, comp: true, bitmap: bitmap, length: length}); p != nil || !acc {
+					t.Fatalf("the honest compressed proof of absence of key %x in the EMPTY trie is rejected by the repository verifier (panic=%v)", q, p)
+				}
+				if acc, _ := c11Accepts(nil, c11claim{kind: "incl", key: q, value: c10Val(t, "emptyVal")}); acc {
+					t.Fatalf("an inclusion claim was accepted against the empty trie")
+				}
+			}
+			rec.Case("empty-root", fmt.Sprintf("%x", universe[0]), false, nil)
 			return
 		}
 		// query keys: universe + a few absent keys (random, and near-misses of present keys)
@@ -397,6 +419,26 @@ func TestC11Proofs(t *testing.T) {
 						}
 					}()
 					rec.Label("attack:height-off-by-one")
+				}
+			}
+			// an audit path element that is not a 32-byte hash: the preimage of the present key's own leaf, cut so that
+			// "empty subtree || element" (or "element || empty subtree") spells exactly that preimage
+			if c.kind == "incl" && !c.comp {
+				depth := len(c.ap)
+				if depth < 256 && c.key[0] == 0x00 && c.key[depth/8]&(1<<uint(7-depth%8)) == 0 {
+					m = c
+					m.kind, m.proofKey, m.value = "nonincl", nil, nil
+					el := append(append(append([]byte{}, c.key[1:]...), c.value...), byte(256-depth))
+					m.ap = append([][]byte{el}, c11Clone(c.ap)...)
+					m.what = "absence-of-present-key-via-leaf-preimage-as-audit-node"
+					attack(m)
+				}
+				if depth == 0 && c.key[0]&0x80 != 0 {
+					m = c
+					m.kind, m.proofKey, m.value = "nonincl", nil, nil
+					m.ap = [][]byte{append(append([]byte{}, c.key...), c.value...)}
+					m.what = "absence-of-the-only-key-via-leaf-preimage-as-audit-node"
+					attack(m)
 				}
 			}
 			// inclusion flag flipped: use an inclusion proof as a proof of absence and vice versa
